@@ -322,7 +322,7 @@ class FindResult:
         self.elapsed_us = int(fields[5])
 
 
-def run_find_inproc(cases, workdir, cwd, uid=None, per_case_timeout=20.0):
+def run_find_inproc(cases, workdir, cwd, uid=None, per_case_timeout=20.0, env=None):
     """cases: list of (id, args[, now_ns]); args include argv[0]. Returns dict id -> FindResult."""
     lines = []
     for c in cases:
@@ -330,7 +330,7 @@ def run_find_inproc(cases, workdir, cwd, uid=None, per_case_timeout=20.0):
         now_ns = c[2] if len(c) > 2 else 0
         lines.append(find_case(cid, args, now_ns))
     extra = ["--uid", str(uid)] if uid is not None else []
-    raw = run_vh("find", lines, workdir, extra=extra, cwd=cwd, per_case_timeout=per_case_timeout)
+    raw = run_vh("find", lines, workdir, extra=extra, cwd=cwd, per_case_timeout=per_case_timeout, env=env)
     return {k: FindResult(v) for k, v in raw.items()}
 
 
